@@ -243,9 +243,14 @@ func runForced(cs *caseSpec, e *caseEnv) *caseRun {
 	return out
 }
 
-// collisionSig: the signature of the one recorded defect of C10 (KNOWN_FINDINGS.txt). It is given only to a call on
-// a type from which one of two messages sharing a schema name is reachable, that did not panic.
-const collisionSig = "C10 two messages with one schema name (a nested message M.N and a top-level message M_N of one package): the call is answered from the cache entry of whichever of the two was reflected first, not with what it returns alone"
+// collisionSig: the signature of the one recorded defect of C10 (KNOWN_FINDINGS.txt): since /repo 0e6056c a schema name
+// belongs to the descriptor that asked for it first, and a call that meets a name claimed by another descriptor fails.
+// Given only to a call on a type from which one of two messages sharing a schema name is reachable, that returned this error.
+const collisionSig = "C10 two messages with one schema name (a nested message M.N and a top-level message M_N of one package): whichever is reflected second on a shared cache fails with 'schema name ... is used by both ...', though the call succeeds alone"
+
+// collisionTextSig: the same defect on a type that contains both descriptors and so fails alone as well: which descriptor
+// the error names first, and at which field the build stops, depends on which of the two is already in the shared cache.
+const collisionTextSig = "C10 two messages with one schema name (a nested message M.N and a top-level message M_N of one package): a type holding both fails alone and on a shared cache with 'schema name ... is used by both ...', but the text (order of the two descriptors, failing field) depends on which was reflected first"
 
 // ---------------------------------------------------------------- generators
 
@@ -543,8 +548,10 @@ func runC10(cfg *vh.Config) error {
 				if !same {
 					sig := "C10 forced schedule: " + kindName[c.Kind] + " result differs from the result of the call run alone"
 					switch {
-					case cs.U.ReachesCollision(c.Node) && got.Panic == "":
+					case cs.U.ReachesCollision(c.Node) && strings.Contains(got.Err, "is used by both") && !want.failed():
 						sig = collisionSig
+					case cs.U.ReachesCollision(c.Node) && strings.Contains(got.Err, "is used by both") && strings.Contains(want.Err, "is used by both"):
+						sig = collisionTextSig
 
 					case c.Kind == kSchema && got.Err != "" && !want.failed():
 						sig = "C10 forced schedule: Schema fails (unlinked placeholder of a build in progress is visible) for a type that reflects alone"
